@@ -387,8 +387,9 @@ def run_sess(case):
                     out['ok'] = ['WAppend' if opened[-1][1] == 'ab+' else 'WOpen', opened[-1][0]]
                 else:
                     out['ok'] = ['WNoFile']
-            except OSError as e:
-                if 'continue' in str(e):
+            except Exception as e:
+                # 'Server not able to continue' - a per-URL ProtocolError since the C09 repair (was IOError)
+                if type(e).__name__ in ('ProtocolError', 'OSError') and 'continue' in str(e):
                     out['ok'] = ['WCannotContinue']
                 else:
                     raise
